@@ -140,4 +140,326 @@ theorem mkSlice_idx_ok (d : DS) (n : Nat) (l : List Nat)
     mkSlice (.idx (l.map Int.ofNat)) d = .ok (sliceDS l d) := by
   simp [mkSlice, hg, hix, hn, resolveSlice, resolveIdx_ofNat n l hl, bind, Except.bind]
 
+/-! ## `sorted(zip(values, count()))` -/
+
+section SortSec
+variable {κ : Type}
+
+/-- `lt` is a strict total order (Boolean valued) -/
+structure StrictTotal (lt : κ → κ → Bool) : Prop where
+  irrefl : ∀ a, lt a a = false
+  trans : ∀ a b c, lt a b = true → lt b c = true → lt a c = true
+  total : ∀ a b, a ≠ b → lt a b = true ∨ lt b a = true
+
+theorem StrictTotal.asymm {lt : κ → κ → Bool} (h : StrictTotal lt) {a b : κ}
+    (hab : lt a b = true) : lt b a = false := by
+  cases hba : lt b a with
+  | false => rfl
+  | true => have := h.trans a b a hab hba; rw [h.irrefl] at this; cases this
+
+theorem pairLeBy_iff {lt : κ → κ → Bool} (h : StrictTotal lt) (a b : κ × Nat) :
+    pairLeBy lt a b = true ↔ (lt a.1 b.1 = true ∨ (a.1 = b.1 ∧ a.2 ≤ b.2)) := by
+  unfold pairLeBy
+  constructor
+  · intro hp
+    by_cases h1 : lt a.1 b.1 = true
+    · exact Or.inl h1
+    · by_cases h2 : lt b.1 a.1 = true
+      · simp [h1, h2] at hp
+      · simp only [h1, h2, if_false, Bool.false_eq_true, decide_eq_true_eq] at hp
+        refine Or.inr ⟨?_, hp⟩
+        apply Classical.byContradiction
+        intro hne
+        cases h.total _ _ hne with
+        | inl h => exact h1 h
+        | inr h => exact h2 h
+  · intro hp
+    cases hp with
+    | inl h1 => simp [h1]
+    | inr h2 =>
+      obtain ⟨he, hle⟩ := h2
+      simp [he, h.irrefl, hle]
+
+theorem pairLeBy_trans {lt : κ → κ → Bool} (h : StrictTotal lt) (a b c : κ × Nat)
+    (hab : pairLeBy lt a b = true) (hbc : pairLeBy lt b c = true) : pairLeBy lt a c = true := by
+  rw [pairLeBy_iff h] at *
+  rcases hab with h1 | ⟨e1, l1⟩ <;> rcases hbc with h2 | ⟨e2, l2⟩
+  · exact Or.inl (h.trans _ _ _ h1 h2)
+  · exact Or.inl (e2 ▸ h1)
+  · exact Or.inl (e1 ▸ h2)
+  · exact Or.inr ⟨e1.trans e2, Nat.le_trans l1 l2⟩
+
+theorem pairLeBy_total {lt : κ → κ → Bool} (h : StrictTotal lt) (a b : κ × Nat) :
+    (pairLeBy lt a b || pairLeBy lt b a) = true := by
+  rw [Bool.or_eq_true, pairLeBy_iff h, pairLeBy_iff h]
+  by_cases he : a.1 = b.1
+  · rcases Nat.le_total a.2 b.2 with hl | hl
+    · exact Or.inl (Or.inr ⟨he, hl⟩)
+    · exact Or.inr (Or.inr ⟨he.symm, hl⟩)
+  · rcases h.total _ _ he with hl | hl
+    · exact Or.inl (Or.inl hl)
+    · exact Or.inr (Or.inl hl)
+
+/-- the sorted `(value, index)` tuples -/
+def sortedPairs (lt : κ → κ → Bool) (ks : List κ) : List (κ × Nat) :=
+  (ks.zipIdx).mergeSort (pairLeBy lt)
+
+theorem sortOrderBy_eq (lt : κ → κ → Bool) (ks : List κ) (rev : Bool) :
+    sortOrderBy lt ks rev
+      = (if rev then ((sortedPairs lt ks).map (·.2)).reverse else (sortedPairs lt ks).map (·.2)) := by
+  unfold sortOrderBy sortedPairs
+  cases rev <;> simp
+
+theorem sortedPairs_perm (lt : κ → κ → Bool) (ks : List κ) :
+    (sortedPairs lt ks).Perm ks.zipIdx := List.mergeSort_perm _ _
+
+theorem mem_sortedPairs {lt : κ → κ → Bool} {ks : List κ} {p : κ × Nat} :
+    p ∈ sortedPairs lt ks ↔ ks[p.2]? = some p.1 := by
+  rw [(sortedPairs_perm lt ks).mem_iff, List.mem_zipIdx_iff_getElem?]
+
+theorem sortedPairs_snd_perm (lt : κ → κ → Bool) (ks : List κ) :
+    ((sortedPairs lt ks).map (·.2)).Perm (List.range ks.length) := by
+  have h := (sortedPairs_perm lt ks).map (·.2)
+  have e : (ks.zipIdx).map (·.2) = List.range ks.length := by
+    rw [List.range_eq_range']; exact List.zipIdx_map_snd 0 ks
+  rwa [e] at h
+
+theorem sortOrderBy_perm (lt : κ → κ → Bool) (ks : List κ) (rev : Bool) :
+    (sortOrderBy lt ks rev).Perm (List.range ks.length) := by
+  rw [sortOrderBy_eq]
+  cases rev
+  · exact sortedPairs_snd_perm lt ks
+  · exact (List.reverse_perm _).trans (sortedPairs_snd_perm lt ks)
+
+theorem sortedPairs_pairwise {lt : κ → κ → Bool} (h : StrictTotal lt) (ks : List κ) :
+    (sortedPairs lt ks).Pairwise (fun a b => pairLeBy lt a b = true) :=
+  List.pairwise_mergeSort (pairLeBy_trans h) (pairLeBy_total h) _
+
+theorem sortedPairs_snd_nodup (lt : κ → κ → Bool) (ks : List κ) :
+    (sortedPairs lt ks).Pairwise (fun a b => a.2 ≠ b.2) := by
+  have : ((sortedPairs lt ks).map (·.2)).Nodup :=
+    (sortedPairs_snd_perm lt ks).nodup_iff.mpr List.nodup_range
+  exact List.pairwise_map.mp this
+
+theorem getElem!_of_getElem? [Inhabited κ] {ks : List κ} {i : Nat} {a : κ}
+    (h : ks[i]? = some a) : ks[i]! = a := by
+  simp [h]
+
+/-- ascending: keys non-decreasing, ties in increasing index order -/
+theorem sortedPairs_snd_sorted [Inhabited κ] {lt : κ → κ → Bool} (h : StrictTotal lt) (ks : List κ) :
+    ((sortedPairs lt ks).map (·.2)).Pairwise
+      (fun i j => lt (ks[j]!) (ks[i]!) = false ∧ (ks[i]! = ks[j]! → i < j)) := by
+  rw [List.pairwise_map]
+  refine List.Pairwise.imp_of_mem ?_
+    ((sortedPairs_pairwise h ks).and (sortedPairs_snd_nodup lt ks))
+  intro a b ha hb hab
+  obtain ⟨hle, hne⟩ := hab
+  rw [getElem!_of_getElem? (mem_sortedPairs.mp ha), getElem!_of_getElem? (mem_sortedPairs.mp hb)]
+  rw [pairLeBy_iff h] at hle
+  rcases hle with hlt | ⟨he, hl⟩
+  · refine ⟨h.asymm hlt, ?_⟩
+    intro he; rw [he, h.irrefl] at hlt; cases hlt
+  · refine ⟨by rw [he]; exact h.irrefl _, fun _ => by omega⟩
+
+theorem sortOrderBy_sorted [Inhabited κ] {lt : κ → κ → Bool} (h : StrictTotal lt) (ks : List κ) :
+    (sortOrderBy lt ks false).Pairwise
+      (fun i j => lt (ks[j]!) (ks[i]!) = false ∧ (ks[i]! = ks[j]! → i < j)) := by
+  rw [sortOrderBy_eq]; exact sortedPairs_snd_sorted h ks
+
+theorem sortOrderBy_sorted_reverse [Inhabited κ] {lt : κ → κ → Bool} (h : StrictTotal lt) (ks : List κ) :
+    (sortOrderBy lt ks true).Pairwise
+      (fun i j => lt (ks[i]!) (ks[j]!) = false ∧ (ks[i]! = ks[j]! → j < i)) := by
+  rw [sortOrderBy_eq]
+  simp only [if_true, List.pairwise_reverse]
+  exact (sortedPairs_snd_sorted h ks).imp (fun ⟨h1, h2⟩ => ⟨h1, fun e => h2 e.symm⟩)
+
+theorem intLt_strictTotal : StrictTotal intLt where
+  irrefl a := by simp [intLt]
+  trans a b c := by simp only [intLt, decide_eq_true_eq]; omega
+  total a b := by simp only [intLt, decide_eq_true_eq]; omega
+
+theorem strLt_strictTotal : StrictTotal strLt where
+  irrefl a := by simp [strLt, String.lt_irrefl]
+  trans a b c := by simp only [strLt, decide_eq_true_eq]; exact String.lt_trans
+  total a b := by
+    simp only [strLt, decide_eq_true_eq]
+    intro hne
+    by_cases h : a < b
+    · exact Or.inl h
+    · by_cases h' : b < a
+      · exact Or.inr h'
+      · exact absurd (String.le_antisymm (String.not_lt.mp h') (String.not_lt.mp h)) hne
+
+end SortSec
+
+/-! ## `sorted(keys)` -/
+
+theorem sortKeys_perm (ks : List String) (rev : Bool) : (sortKeys ks rev).Perm ks := by
+  unfold sortKeys
+  cases rev
+  · exact List.mergeSort_perm _ _
+  · exact List.mergeSort_perm _ _
+
+theorem sortKeys_sorted (ks : List String) : (sortKeys ks false).Pairwise (fun a b => a ≤ b) := by
+  have h := List.pairwise_mergeSort (le := strLe)
+    (by intro a b c; simp only [strLe, decide_eq_true_eq]; exact String.le_trans)
+    (by intro a b; simp only [strLe, Bool.or_eq_true, decide_eq_true_eq]; exact String.le_total a b)
+    ks
+  exact h.imp (by intro a b; simp [strLe])
+
+theorem sortKeys_sorted_reverse (ks : List String) :
+    (sortKeys ks true).Pairwise (fun a b => b ≤ a) := by
+  have h := List.pairwise_mergeSort (le := fun a b => strLe b a)
+    (by intro a b c; simp only [strLe, decide_eq_true_eq]; exact fun h1 h2 => String.le_trans h2 h1)
+    (by intro a b; simp only [strLe, Bool.or_eq_true, decide_eq_true_eq]; exact String.le_total b a)
+    ks
+  exact h.imp (by intro a b; simp [strLe])
+
+/-! ## `groupby` -/
+
+/-- the `groupby` loop from an arbitrary accumulator -/
+def groupFold (l : List (SKey × Nat)) (acc : List (SKey × List Nat)) : List (SKey × List Nat) :=
+  l.foldl (fun acc (g, i) => groupInsert g i acc) acc
+
+theorem groupIndices_eq (gs : List SKey) : groupIndices gs = groupFold gs.zipIdx [] := rfl
+
+theorem groupFold_cons (g : SKey) (i : Nat) (l : List (SKey × Nat)) (acc : List (SKey × List Nat)) :
+    groupFold ((g, i) :: l) acc = groupFold l (groupInsert g i acc) := rfl
+
+theorem groupInsert_flatten_perm (g : SKey) (i : Nat) :
+    ∀ acc : List (SKey × List Nat),
+      (((groupInsert g i acc).map (·.2)).flatten).Perm (i :: ((acc.map (·.2)).flatten))
+  | [] => by simp [groupInsert]
+  | (g', is) :: rest => by
+    unfold groupInsert
+    split
+    · simp only [List.map_cons, List.flatten_cons, List.append_assoc]
+      exact List.perm_middle
+    · simp only [List.map_cons, List.flatten_cons]
+      exact ((groupInsert_flatten_perm g i rest).append_left is).trans List.perm_middle
+
+theorem groupFold_flatten_perm :
+    ∀ (l : List (SKey × Nat)) (acc : List (SKey × List Nat)),
+      (((groupFold l acc).map (·.2)).flatten).Perm (((acc.map (·.2)).flatten) ++ l.map (·.2))
+  | [], acc => by simp [groupFold]
+  | (g, i) :: l, acc => by
+    rw [groupFold_cons]
+    refine (groupFold_flatten_perm l _).trans ?_
+    refine ((groupInsert_flatten_perm g i acc).append_right _).trans ?_
+    simp only [List.map_cons, List.cons_append]
+    exact List.perm_middle.symm
+
+theorem groupInsert_ids (g : SKey) (i : Nat) :
+    ∀ acc : List (SKey × List Nat),
+      (groupInsert g i acc).map (·.1)
+        = if g ∈ acc.map (·.1) then acc.map (·.1) else acc.map (·.1) ++ [g]
+  | [] => by simp [groupInsert]
+  | (g', is) :: rest => by
+    unfold groupInsert
+    by_cases h : g' = g
+    · simp [h]
+    · have h' : ¬ g = g' := fun e => h e.symm
+      simp only [h, if_false, List.map_cons, List.mem_cons, h', false_or, groupInsert_ids g i rest]
+      split <;> simp
+
+theorem groupInsert_nodup (g : SKey) (i : Nat) (acc : List (SKey × List Nat))
+    (h : (acc.map (·.1)).Nodup) : ((groupInsert g i acc).map (·.1)).Nodup := by
+  rw [groupInsert_ids]
+  split
+  · exact h
+  · rename_i hg
+    rw [List.nodup_append]
+    refine ⟨h, by simp, ?_⟩
+    intro a ha b hb
+    simp only [List.mem_singleton] at hb
+    subst hb
+    intro e; subst e; exact hg ha
+
+/-- every entry of `groupInsert g i acc` is an old entry, or the entry of `g` extended by `i` -/
+theorem mem_groupInsert {g : SKey} {i : Nat} {g' : SKey} {is' : List Nat} :
+    ∀ {acc : List (SKey × List Nat)}, (g', is') ∈ groupInsert g i acc →
+      (g', is') ∈ acc ∨ (g' = g ∧ (is' = [i] ∨ ∃ is, (g, is) ∈ acc ∧ is' = is ++ [i]))
+  | [], h => by
+    simp only [groupInsert, List.mem_singleton, Prod.mk.injEq] at h
+    exact Or.inr ⟨h.1, Or.inl h.2⟩
+  | (g0, is0) :: rest, h => by
+    unfold groupInsert at h
+    split at h
+    · rename_i he
+      subst he
+      rcases List.mem_cons.mp h with h | h
+      · simp only [Prod.mk.injEq] at h
+        exact Or.inr ⟨h.1, Or.inr ⟨is0, List.mem_cons_self .., h.2⟩⟩
+      · exact Or.inl (List.mem_cons_of_mem _ h)
+    · rcases List.mem_cons.mp h with h | h
+      · exact Or.inl (h ▸ List.mem_cons_self ..)
+      · rcases mem_groupInsert h with h | ⟨e, h | ⟨is, hm, e'⟩⟩
+        · exact Or.inl (List.mem_cons_of_mem _ h)
+        · exact Or.inr ⟨e, Or.inl h⟩
+        · exact Or.inr ⟨e, Or.inr ⟨is, List.mem_cons_of_mem _ hm, e'⟩⟩
+
+/-- invariant of the `groupby` loop after the examples `0 … m-1` -/
+structure GroupInv (gs : List SKey) (m : Nat) (acc : List (SKey × List Nat)) : Prop where
+  ids : ∀ g is, (g, is) ∈ acc → ∀ i ∈ is, gs[i]? = some g
+  bound : ∀ g is, (g, is) ∈ acc → ∀ i ∈ is, i < m
+  order : ∀ g is, (g, is) ∈ acc → is.Pairwise (· < ·)
+  nodup : (acc.map (·.1)).Nodup
+
+theorem GroupInv.step {gs : List SKey} {m : Nat} {acc : List (SKey × List Nat)} {g : SKey}
+    (h : GroupInv gs m acc) (hg : gs[m]? = some g) : GroupInv gs (m + 1) (groupInsert g m acc) where
+  ids g' is' hm i hi := by
+    rcases mem_groupInsert hm with hm | ⟨e, e' | ⟨is, hm', e'⟩⟩
+    · exact h.ids _ _ hm i hi
+    · subst e e'; simp only [List.mem_singleton] at hi; subst hi; exact hg
+    · subst e e'
+      rcases List.mem_append.mp hi with hi | hi
+      · exact h.ids _ _ hm' i hi
+      · simp only [List.mem_singleton] at hi; subst hi; exact hg
+  bound g' is' hm i hi := by
+    rcases mem_groupInsert hm with hm | ⟨e, e' | ⟨is, hm', e'⟩⟩
+    · exact Nat.lt_succ_of_lt (h.bound _ _ hm i hi)
+    · subst e'; simp only [List.mem_singleton] at hi; omega
+    · subst e'
+      rcases List.mem_append.mp hi with hi | hi
+      · exact Nat.lt_succ_of_lt (h.bound _ _ hm' i hi)
+      · simp only [List.mem_singleton] at hi; omega
+  order g' is' hm := by
+    rcases mem_groupInsert hm with hm | ⟨e, e' | ⟨is, hm', e'⟩⟩
+    · exact h.order _ _ hm
+    · subst e'; exact List.pairwise_singleton _ _
+    · subst e'
+      rw [List.pairwise_append]
+      refine ⟨h.order _ _ hm', List.pairwise_singleton _ _, ?_⟩
+      intro a ha b hb
+      simp only [List.mem_singleton] at hb
+      subst hb
+      exact h.bound _ _ hm' a ha
+  nodup := groupInsert_nodup g m acc h.nodup
+
+theorem groupFold_inv (gs : List SKey) :
+    ∀ (l : List SKey) (m : Nat) (acc : List (SKey × List Nat)),
+      (∀ j, j < l.length → gs[m + j]? = l[j]?) → GroupInv gs m acc →
+      GroupInv gs (m + l.length) (groupFold (l.zipIdx m) acc)
+  | [], m, acc, _, h => h
+  | g :: l, m, acc, hl, h => by
+    rw [List.zipIdx_cons, groupFold_cons]
+    have hg : gs[m]? = some g := by simpa using hl 0 (by simp)
+    have := groupFold_inv gs l (m + 1) _ (fun j hj => by
+      have := hl (j + 1) (by simp; omega)
+      simpa [Nat.add_assoc, Nat.add_comm 1 j] using this) (h.step hg)
+    simpa [Nat.add_assoc, Nat.add_comm 1] using this
+
+theorem groupIndices_inv (gs : List SKey) : GroupInv gs gs.length (groupIndices gs) := by
+  have := groupFold_inv gs gs 0 [] (fun j _ => by simp)
+    ⟨by simp, by simp, by simp, by simp⟩
+  simpa [groupIndices_eq] using this
+
+theorem groupIndices_flatten_perm (gs : List SKey) :
+    (((groupIndices gs).map (·.2)).flatten).Perm (List.range gs.length) := by
+  have h := groupFold_flatten_perm gs.zipIdx []
+  have e : (gs.zipIdx).map (·.2) = List.range gs.length := by
+    rw [List.range_eq_range']; exact List.zipIdx_map_snd 0 gs
+  rw [e] at h
+  simpa [groupIndices_eq] using h
+
 end LazyDs.ShardSort
